@@ -587,7 +587,13 @@ def typed(x):
         return ("dict", [(typed(k), typed(v)) for k, v in x.items()])
     if isinstance(x, (list, tuple, set, frozenset)):
         return ("seq", [typed(v) for v in x])
+    if type(x) is str and " at 0x" in x:
+        # a text built with str()/repr() of an object (e.g. a BytesIO sitting in a cell) carries a memory address
+        return ("str", repr(_ADDR.sub(" at 0x?", x)))
     return (type(x).__name__, repr(x))
+
+
+_ADDR = __import__("re").compile(r" at 0x[0-9a-fA-F]+")
 
 
 def universe_problems(x, path="") -> list[str]:
